@@ -10,7 +10,7 @@ INT_TYPES = [("int", 256, False)] * 6 + [("int", 256, True)] * 3 + [("int", 128,
 ARITH = ["Add"] * 4 + ["Sub"] * 3 + ["Mul"] * 3 + ["Div"] * 2 + ["Mod"] * 2 + ["BAnd", "BOr", "BXor"]
 CMPS = ["Lt", "Le", "Gt", "Ge", "Eq", "Ne"]
 
-ALL_FEATURES = {"probes", "maps", "convert", "ifexp", "minmax", "bitops", "internal", "loops", "arrays", "dynarrays", "structs",
+ALL_FEATURES = {"probes", "maps", "reasons", "convert", "ifexp", "minmax", "bitops", "internal", "loops", "arrays", "dynarrays", "structs",
                 "transient", "sender", "value", "fordyn", "forin"}
 
 
@@ -428,6 +428,8 @@ class Gen:
         kinds = ["decl"] * 3 + ["assign"] * 4 + ["aug"] * 3 + ["assert"] * 2 + ["log"] * 2
         if d > 0 and "loops" in self.feat and cx.loop_depth < 2:
             kinds += ["idiom"] * 2
+        if self.comp_types:
+            kinds += ["copyidiom"] * 2
         if d > 0:
             kinds += ["if"] * 5
             if "loops" in self.feat and cx.loop_depth < 2:
@@ -445,6 +447,11 @@ class Gen:
         ed = 2 if r.random() < 0.7 else 3
         if k == "idiom":
             out = self.idiom(cx, scope, d)
+            if out:
+                return out
+            k = "assign"
+        if k == "copyidiom":
+            out = self.copy_idiom(cx, scope, d)
             if out:
                 return out
             k = "assign"
@@ -484,6 +491,9 @@ class Gen:
                 c2 = self.nonlit(cx, scope, BOOL, 1)
                 if c2 is not None:
                     c = E("or", BOOL, a=c, b=E("not", BOOL, a=E("and", BOOL, a=c2, b=E("not", BOOL, a=c2.clone()))))
+            if "reasons" in self.feat and r.random() < 0.5:
+                rid = self.reason_id()
+                return [S("assert", e=c, reason=self.prog.reasons[rid], rid=rid)]
             return [S("assert", e=c)]
         if k == "log":
             if not self.prog.events:
@@ -531,6 +541,9 @@ class Gen:
             c = self.nonlit(cx, scope, BOOL, 1)
             if c is None:
                 return []
+            if "reasons" in self.feat and r.random() < 0.2:
+                rid = self.reason_id()
+                return [S("if", c=c, th=[S("raisemsg", reason=self.prog.reasons[rid], rid=rid)], el=[])]
             rv = None if cx.ret is None else self.expr(cx, scope, cx.ret, 2)
             return [S("if", c=c, th=[S("return", e=rv)], el=[])]
         raise ValueError(k)
@@ -591,6 +604,119 @@ class Gen:
             out.append(S("aug", op=op, ty=t, base=base, path=[], e=x.clone()))
         outer_scope[:] = scope
         return out
+
+    def leaf_path(self, cx, scope, t, d):
+        """a path from a composite type t down to an integer/bool leaf: (path, leaf type) or None"""
+        r = self.r
+        path = []
+        for _ in range(4):
+            if t[0] == "struct":
+                k = r.randrange(len(t[2]))
+                path.append(("f", t[2][k][0], k))
+                t = t[2][k][1]
+            elif t[0] == "sarr":
+                path.append(("i", E("const", U256, v=r.randrange(t[2]))))
+                t = t[1]
+            elif t[0] == "darr":
+                return None if not path else None
+            else:
+                break
+        if t[0] in ("int", "bool", "addr"):
+            return path, t
+        return None
+
+    def read_path(self, root, path):
+        e = root
+        t = root.ty
+        for el in path:
+            if el[0] == "f":
+                ft = dict((fn, ft) for fn, ft in t[2])[el[1]]
+                e = E("fld", ft, a=e, name=el[1], id=el[2])
+                t = ft
+            else:
+                e = E("idx", t[1], a=e, i=el[1].clone())
+                t = t[1]
+        return e
+
+    def observe_stmt(self, cx, scope, e):
+        """make the value of a primitive expression observable: log it (uint256 event) or store it"""
+        r = self.r
+        t = e.ty
+        tgs = self.scalar_targets(cx, scope, lambda vt: vt == t)
+        tgs = [x for x in tgs if x[0][0] != "loc"]
+        if tgs and r.random() < 0.6:
+            b, p, _ = r.choice(tgs)
+            return S("assign", base=b, path=p, e=e, decl=None)
+        if is_int(t) and t != U256:
+            e = E("conv", U256, a=e) if (not t[2]) else E("conv", U256, a=E("bin", t, op="BAnd", a=e, b=E("const", t, v=int_bounds(t)[1])))
+        elif t == BOOL:
+            e = E("conv", U256, a=e)
+        elif t == ADDR:
+            return S("assert", e=E("cmp", BOOL, op="Eq", a=e, b=e.clone())) if False else S("pass")
+        return S("log", name="Ev0", id=0, fields=["x"], args=[e])
+
+    def copy_idiom(self, cx, scope, d):
+        """copy-then-mutate idioms (by-value copies of arrays / structs between locals, storage, parameters and call results):
+        stress copy forwarding / copy elision / mem2var in the optimiser"""
+        r = self.r
+        cts = [t for t in self.comp_types if t[0] in ("sarr", "struct", "darr")]
+        if not cts:
+            return None
+        t = r.choice(cts)
+        srcs = [c for c in self.containers(cx, scope) if c.ty == t]
+        fs = self.callable_funs(cx, t)
+        out = []
+        x = r.random()
+        if srcs and x < 0.65:
+            y = r.choice(srcs)
+        elif fs and x < 0.85:
+            y = self.call_expr(cx, scope, r.choice(fs), 1)
+        else:
+            y = self.composite_lit(t)
+        name, vid = self.new_local(cx, t)
+        out.append(S("assign", base=("loc", name, vid), path=[], e=y, decl=t))
+        xv = E("var", t, name=name, id=vid)
+        # mutate the copy (or, half of the time, the original when it is an assignable place)
+        mutate_original = y.k in ("var", "self", "tra") and r.random() < 0.5
+        if y.k == "var":
+            ent = [e for e in scope if e[0] == y.name]
+            if not ent or not ent[0][3]:
+                mutate_original = False
+        if y.k in ("self", "tra") and y.name in cx.iter_locked:
+            mutate_original = False
+        if mutate_original:
+            mbase = ("loc", y.name, y.id) if y.k == "var" else (("sto" if y.k == "self" else "tra"), y.name, y.id)
+        else:
+            mbase = ("loc", name, vid)
+        if t[0] == "darr":
+            if r.random() < 0.6:
+                out.append(S("append", base=mbase, path=[], cap=t[2], e=self.expr(cx, scope, t[1], 1)))
+            else:
+                out.append(S("expr", e=E("pop", t[1], base=mbase, path=[])))
+            obs = [E("len", U256, a=xv)]
+            if y.k in ("var", "self", "tra"):
+                obs.append(E("len", U256, a=y.clone()))
+        else:
+            lp = self.leaf_path(cx, scope, t, d)
+            if lp is None:
+                return None
+            path, lt = lp
+            out.append(S("assign", base=mbase, path=path, e=self.expr(cx, scope, lt, 1), decl=None))
+            obs = [self.read_path(xv, path)]
+            if y.k in ("var", "self", "tra"):
+                obs.append(self.read_path(y.clone(), path))
+        scope.append((name, vid, t, True))
+        for e in obs:
+            out.append(self.observe_stmt(cx, scope, e))
+        return [s_ for s_ in out if s_.k != "pass"]
+
+    def reason_id(self):
+        r = self.r
+        pool = ["no", "bad value", "x" * 31, "y" * 32, "z" * 33, "overflow?", "a reason that is longer than thirty-two bytes for sure"]
+        msg = r.choice(pool)
+        if msg not in self.prog.reasons:
+            self.prog.reasons.append(msg)
+        return self.prog.reasons.index(msg)
 
     def darr_target(self, cx, scope, d):
         for _ in range(6):
